@@ -269,3 +269,9 @@ def wf_ok(v):
 def same_value(v, w):
     """equal text and structurally equal tables (setting objects compared by identity)"""
     return v._s == w._s and same_table(v._fmts, w._fmts)
+
+
+def payload_of(x):
+    """the str payload of an AnsiStr: what str.__str__, '%s' % x, print and file.write see (engine twin: the
+    payload the interpreter stored at str.__new__)"""
+    return str.__str__(x)
